@@ -514,13 +514,18 @@ class Zeroconf(QuietLogger):
         awaited since its only called at shutdown.
         """
         # Send Goodbye packets https://datatracker.ietf.org/doc/html/rfc6762#section-10.1
-        out = self.generate_unregister_all_services()
-        if not out:
-            return
-        for i in range(_REGISTER_BROADCASTS):
-            if i != 0:
-                await asyncio.sleep(millis_to_seconds(_UNREGISTER_TIME))
-            self.async_send(out)
+        #
+        # A registration that was still probing when we started can complete
+        # while the goodbyes are being sent; go round again until nothing is
+        # registered so that service is withdrawn as well.
+        while True:
+            out = self.generate_unregister_all_services()
+            if not out:
+                return
+            for i in range(_REGISTER_BROADCASTS):
+                if i != 0:
+                    await asyncio.sleep(millis_to_seconds(_UNREGISTER_TIME))
+                self.async_send(out)
 
     def unregister_all_services(self) -> None:
         """Unregister all registered services.
